@@ -448,6 +448,13 @@ func (ex *Exec) RunPath(fn *ssa.Function, prefix []Decision) (res PathResult) {
 		res.Witnesses = ex.ps.witnesses
 		if ex.hb != nil {
 			res.Races = ex.hb.races
+			for _, r := range ex.hb.races {
+				if !ex.raceReported[r] {
+					ex.raceReported[r] = true
+					ex.violationNow(r, "happens-before monitor")
+				}
+			}
+			res.Violations = ex.ps.viol
 		}
 		if !ex.ps.pinMode && res.AbortKind != abortInconclusive {
 			// a model of the path for the samples
